@@ -222,10 +222,10 @@ TWINS = {
     "seenset_any_instead_of_all": dict(apply=_twin_seenset_any_instead_of_all,
                                        specs=lambda t: [dict(BASE2, cond=["and", _J[0], _J[3]], select=_FULL)]),
     "cached_truth_flag_not_restored": dict(apply=_twin_cached_truth_flag_not_restored,
-                                           specs=lambda t: [dict(BASE2, cond=["not", _J[0]], select=_FULL)]),
+                                           specs=lambda t: [dict(BASE2, cond=["and", _J[0], _SX[0]], select=_FULL),
+                                                            dict(BASE2, cond=["not", ["and", _J[0], _SX[0]]], select=_FULL)]),
     "cache_stores_wrong_truth_flag": dict(apply=_twin_cache_stores_wrong_truth,
-                                          specs=lambda t: [dict(BASE2, cond=["or", ["not", _J[3]], _SY[0]], select=_FULL),
-                                                           dict(BASE2, cond=["not", ["and", _J[3], _SY[0]]], select=_FULL)]),
+                                          specs=lambda t: [dict(BASE2, cond=["and", ["or", _SX[0], _SY[0]], ["or", _SX[1], _SY[0]]], select=_FULL)]),
     "coverage_check_ignores_later_keys": dict(apply=_twin_cache_not_reset,
                                               specs=lambda t: [dict(BASE2, cond=["and", _SX[0], _J[3]], select=_FULL),
                                                                dict(BASE2, cond=["and", _J[3], _J[4]], select=_FULL)]),
